@@ -334,3 +334,8 @@ func TestLanes(t *testing.T) {
 		Rule:    "hook: W-lane bit planes (W = bits per machine word: 64, or 32 in the GOARCH=386 variant) for drawn (len, target) with s = 2..40 (len*target up to 2^64): background lanes (random / too few zeros / exactly s-1 zeros with value just above the target hash or above it by a value in [3^e, 3^(e+1)) for every magnitude e, or the smallest values whose difficulty is len*target - 1) plus up to 3 interesting lanes at 0, W-1 or random (>= s zeros; exactly s-1 zeros with value at / just below / just above the target hash, above or below it by such a value, or random); result < W => that lane has difficulty >= len*target (sound); some lane with difficulty > len*target => result < W (complete); non-trivial = a lane with exactly s-1 zeros exists (big-integer stage reached); distinct by case",
 	})
 }
+
+// coverage-guided fuzzing over the structured lane generator (thorough tier, hook build only)
+func FuzzGenLanes(f *testing.F) {
+	h.FuzzSub(f, h.Sub[laneCase]{Prop: "C12", Name: "lane-test(hook)", Gen: genLanes, Check: checkLanes})
+}
